@@ -615,3 +615,211 @@ func c19CarriageReturnEscaped(ctx *core.Ctx, r *core.Report) {
 	r.Ob("text-through-encoder", "patch/xml.escapeText/carriage-return", ctx.Pos(f.Pos()), ok,
 		"escapeText no longer writes a carriage return as &#xD; (its own case, escCR): a literal CR is normalised to LF by every XML parser, so text containing CR or CR LF does not come back as written")
 }
+
+// c15IdentityrefPrefixByModuleOnly: RFC 7951 6.8 — an identityref value carries
+// the module name of its identity whenever that module differs from the leaf's;
+// it is part of the value, not of the member-name qualification, and does not
+// depend on the writer's QualifyNamespace option. In writeValue (and the XML
+// writer's getStringValue) the prefixing is conditioned on the module comparison
+// alone.
+func c15IdentityrefPrefixByModuleOnly(ctx *core.Ctx, r *core.Report) {
+	wv := ctx.Method("nodeutil", "JSONWtr", "writeValue")
+	if wv == nil {
+		r.Fatalf("anchor nodeutil.JSONWtr.writeValue not found")
+		return
+	}
+	n := 0
+	for _, f := range withClosures(wv) {
+		for _, c := range core.CallSites(f) {
+			cal := core.StaticCallee(c)
+			if cal == nil || core.FnName(cal) != "fmt.Sprint" {
+				continue
+			}
+			// the module:name concatenation: one of the variadic args is the constant ":"
+			isPrefixing := false
+			core.Instrs(f, func(_ *ssa.BasicBlock, in ssa.Instruction) {
+				if mi, ok := in.(*ssa.MakeInterface); ok && mi.Block() == c.Block() {
+					if s, isC := core.ConstString(mi.X); isC && s == ":" {
+						isPrefixing = true
+					}
+				}
+			})
+			if !isPrefixing {
+				continue
+			}
+			n++
+			option := ""
+			for _, pc := range core.PathConds(c.Block()) {
+				var walk func(v ssa.Value, d int)
+				walk = func(v ssa.Value, d int) {
+					if v == nil || d > 4 {
+						return
+					}
+					switch x := v.(type) {
+					case *ssa.UnOp:
+						if fa, ok := x.X.(*ssa.FieldAddr); ok {
+							if nn := core.NamedOf(fa.X.Type()); nn != nil && nn.Obj().Name() == "JSONWtr" {
+								option = core.Deref(fa.X.Type()).Underlying().(*types.Struct).Field(fa.Field).Name()
+							}
+						}
+						walk(x.X, d+1)
+					case *ssa.BinOp:
+						walk(x.X, d+1)
+						walk(x.Y, d+1)
+					case *ssa.Phi:
+						for _, e := range x.Edges {
+							walk(e, d+1)
+						}
+					}
+				}
+				walk(pc.V, 0)
+			}
+			r.Ob("identityref-prefix-by-module-only", core.FnName(f)+"/module-prefix", ctx.Pos(c.Pos()), option == "" || option == "_out",
+				"the module prefix of an identityref value is written only when the writer option "+option+" is set: RFC 7951 makes the prefix part of the value whenever the identity's module differs from the leaf's, so with the default options `animals:cat` is written as `cat` and reads back as another (or no) identity")
+		}
+	}
+	r.Floor("identityref-prefix-by-module-only", n, 1)
+}
+
+// c14LexerPosInBounds: the YANG lexer's position moves past the text only through
+// next() (which stops at the end) or by the length of something it has just
+// matched at the position (strings.HasPrefix … true) or after a bounds test.
+// Error reporting (Position) indexes the input up to pos: a bare pos++ that can
+// run one past the end turns "text ends inside a string" into an index panic.
+func c14LexerPosInBounds(ctx *core.Ctx, r *core.Report) {
+	lx := ctx.Named("parser", "lexer")
+	if lx == nil {
+		r.Fatalf("anchor parser.lexer not found")
+		return
+	}
+	n := 0
+	for _, f := range scopeFuncs(ctx, "parser", "lexer.go") {
+		if f.Name() == "next" || f.Name() == "backup" {
+			continue
+		}
+		core.Instrs(f, func(b *ssa.BasicBlock, in ssa.Instruction) {
+			st, ok := in.(*ssa.Store)
+			if !ok {
+				return
+			}
+			fa, ok := st.Addr.(*ssa.FieldAddr)
+			if !ok || core.NamedOf(fa.X.Type()) != lx {
+				return
+			}
+			if core.Deref(fa.X.Type()).Underlying().(*types.Struct).Field(fa.Field).Name() != "pos" {
+				return
+			}
+			bo, ok := core.Strip(st.Val).(*ssa.BinOp)
+			if !ok || bo.Op != token.ADD {
+				return
+			}
+			n++
+			guarded := false
+			for _, pc := range core.PathConds(b) {
+				switch x := pc.V.(type) {
+				case *ssa.Call:
+					if cal := core.StaticCallee(x); cal != nil && pc.True && (core.FnName(cal) == "strings.HasPrefix" || cal.Name() == "isNextToken" || cal.Name() == "acceptToken") {
+						guarded = true
+					}
+				case *ssa.BinOp:
+					// a comparison that involves the position and the input's length, or the character at pos
+					mentionsLen, mentionsPos := false, false
+					var walk func(v ssa.Value, d int)
+					walk = func(v ssa.Value, d int) {
+						if v == nil || d > 5 {
+							return
+						}
+						switch y := v.(type) {
+						case *ssa.Call:
+							if bi, ok := y.Common().Value.(*ssa.Builtin); ok && bi.Name() == "len" {
+								mentionsLen = true
+							}
+						case *ssa.UnOp:
+							if fa2, ok := y.X.(*ssa.FieldAddr); ok && core.NamedOf(fa2.X.Type()) == lx {
+								if core.Deref(fa2.X.Type()).Underlying().(*types.Struct).Field(fa2.Field).Name() == "pos" {
+									mentionsPos = true
+								}
+							}
+							walk(y.X, d+1)
+						case *ssa.BinOp:
+							walk(y.X, d+1)
+							walk(y.Y, d+1)
+						case *ssa.Lookup:
+							walk(y.X, d+1)
+							walk(y.Index, d+1)
+							mentionsLen = true // indexing input[pos] succeeded: pos < len
+						case *ssa.IndexAddr:
+							walk(y.Index, d+1)
+							mentionsLen = true
+						}
+					}
+					walk(x, 0)
+					if mentionsLen && mentionsPos {
+						guarded = true
+					}
+				}
+			}
+			r.Ob("lexer-pos-in-bounds", core.FnName(f)+"/pos+=", ctx.Pos(st.Pos()), guarded,
+				"the lexer's position is advanced directly, without next() and without a test that the text goes on: at the end of the input it ends one past it, and the error path (Position) then indexes the input out of range — text that stops right after a backslash in a double-quoted string panics instead of being rejected")
+		})
+	}
+	r.Floor("lexer-pos-in-bounds", n, 2)
+}
+
+// c05PatternsNotWidened: a value must match the patterns of every level of the
+// typedef chain (RFC 7950 9.4.5). The checker (fieldConstraints.patternCheck)
+// accepts a string as soon as ONE pattern of the list matches — a recorded known
+// finding, pinned by the suite — so the list a type carries must never mix levels:
+// Type.mixin may hand the typedef's patterns down only to a type that states none.
+// Appending them to the derived type's own patterns would let a value through
+// that fails the leaf's own pattern but matches an inherited one.
+func c05PatternsNotWidened(ctx *core.Ctx, r *core.Report) {
+	mixin := ctx.Method("meta", "Type", "mixin")
+	pc := ctx.Method("node", "fieldConstraints", "patternCheck")
+	if mixin == nil || pc == nil {
+		r.Fatalf("anchors meta.Type.mixin / node.fieldConstraints.patternCheck not found")
+		return
+	}
+	// is the checker disjunctive? (a success return inside its loop)
+	disjunctive := false
+	for _, ret := range core.Returns(pc) {
+		if loopBlocks(ret.Block()) != nil || hasLoopPred(ret.Block()) {
+			ops := core.RetOperands(ret)
+			if len(ops) > 0 && core.IsNilConst(ops[len(ops)-1]) {
+				disjunctive = true
+			}
+		}
+	}
+	appends := false
+	pos := ctx.Pos(mixin.Pos())
+	core.Instrs(mixin, func(_ *ssa.BasicBlock, in ssa.Instruction) {
+		c, ok := in.(*ssa.Call)
+		if !ok {
+			return
+		}
+		if b, ok := c.Common().Value.(*ssa.Builtin); !ok || b.Name() != "append" {
+			return
+		}
+		for _, a := range c.Common().Args {
+			if u, ok := core.Strip(a).(*ssa.UnOp); ok {
+				if fa, ok := u.X.(*ssa.FieldAddr); ok {
+					if core.Deref(fa.X.Type()).Underlying().(*types.Struct).Field(fa.Field).Name() == "patterns" {
+						appends = true
+						pos = ctx.Pos(c.Pos())
+					}
+				}
+			}
+		}
+	})
+	r.Ob("patterns-not-widened", "meta.Type.mixin/patterns", pos, !(appends && disjunctive),
+		"Type.mixin merges the typedef's patterns into the derived type's own list while the checker accepts a value on any one matching pattern: a value that fails the leaf's own pattern but matches an inherited one (or fails to match an inherited invert-match pattern) is accepted and stored")
+}
+
+func hasLoopPred(b *ssa.BasicBlock) bool {
+	for _, p := range b.Preds {
+		if loopBlocks(p) != nil {
+			return true
+		}
+	}
+	return false
+}
